@@ -245,6 +245,7 @@ type specColumn struct {
 }
 
 type specPage struct {
+	hdrLen   int64
 	offset   int64 // of the page header in the file
 	size     int64 // header + compressed body
 	firstRow int64
@@ -345,7 +346,7 @@ func specReadChunk(file []byte, meta *specVal, maxRep, maxDef int) (col *specCol
 			vAssert(uint32(crc) == specCRC32(body), "page CRC is the CRC-32 of the page bytes")
 		}
 		uncompressed += hdrLen + usize
-		pg := specPage{offset: pos, size: hdrLen + csize, firstRow: rows}
+		pg := specPage{hdrLen: hdrLen, offset: pos, size: hdrLen + csize, firstRow: rows}
 		switch ptype {
 		case 2: // DICTIONARY_PAGE
 			dh := h.field(7)
